@@ -201,16 +201,18 @@ func (s *Sym) String() string { return s.K }
 
 // FA is the per-function analysis context.
 type FA struct {
-	P       *Prog
-	Fn      *ssa.Function
-	ovfSafe map[*ssa.BinOp]bool
-	ovfBusy map[*ssa.BinOp]bool
-	ms      *ModSets
-	syms    map[ssa.Value]*Sym
-	vers    map[locClass]*verInfo
-	local   map[*ssa.Alloc]bool // non-escaping allocs
-	idx     map[ssa.Instruction]int
-	inProg  map[ssa.Value]bool
+	P         *Prog
+	Fn        *ssa.Function
+	entry     []Fact
+	entryDone bool
+	ovfSafe   map[*ssa.BinOp]bool
+	ovfBusy   map[*ssa.BinOp]bool
+	ms        *ModSets
+	syms      map[ssa.Value]*Sym
+	vers      map[locClass]*verInfo
+	local     map[*ssa.Alloc]bool // non-escaping allocs
+	idx       map[ssa.Instruction]int
+	inProg    map[ssa.Value]bool
 }
 
 var faCache = map[*ssa.Function]*FA{}
@@ -1403,32 +1405,7 @@ func (fa *FA) signedOpSafe(s *Sym, a, b *Lin) bool {
 	defer delete(fa.ovfBusy, bin)
 	facts := fa.FactsAt(bin, a, b)
 	// assumed magnitudes of memory-sized quantities
-	lins := []*Lin{a, b}
-	for _, f := range facts {
-		lins = append(lins, f.L)
-	}
-	seenAt := map[string]bool{}
-	for _, l := range lins {
-		for k, at := range l.Atoms {
-			if seenAt[k] {
-				continue
-			}
-			seenAt[k] = true
-			if at.Op == "len" || at.Op == "cap" {
-				facts = append(facts, le(linAtom(at), linConst(int64(1)<<40), "assumed: lengths are below 2^40"))
-			} else if bits, signed, ok := intBits(at.T); ok && !wideAtom(at) {
-				if bits <= 32 {
-					if signed {
-						facts = append(facts, le(linAtom(at), linConst(int64(1)<<31), "type range"), le(linConst(-(int64(1)<<31)), linAtom(at), "type range"))
-					} else {
-						facts = append(facts, le(linAtom(at), linConst(int64(1)<<32), "type range"), le(linConst(0), linAtom(at), "type range"))
-					}
-				} else {
-					facts = append(facts, le(linAtom(at), linConst(ovfBound), "assumed: int values are below 2^44"), le(linConst(-ovfBound), linAtom(at), "assumed: int values are above -2^44"))
-				}
-			}
-		}
-	}
+	facts = withMagnitudes(facts, a, b)
 	leC := func(l *Lin, c int64) bool {
 		return Entails(facts, l.Sub(linConst(c))) || fa.entailsPhiSplit(bin, facts, l, linConst(c), 2)
 	}
@@ -1466,4 +1443,37 @@ func (fa *FA) signedOpSafe(s *Sym, a, b *Lin) bool {
 	}
 	fa.ovfSafe[bin] = res
 	return res
+}
+
+// withMagnitudes adds the assumed/typed magnitude bounds of every atom of the facts and of the given forms: lengths
+// and capacities are below 2^40; narrow integers have their type's range; other non-wide integers (type int) are
+// within ±2^44. Wide atoms (int64/uint64) get nothing.
+func withMagnitudes(facts []Fact, extra ...*Lin) []Fact {
+	lins := append([]*Lin{}, extra...)
+	for _, f := range facts {
+		lins = append(lins, f.L)
+	}
+	seenAt := map[string]bool{}
+	for _, l := range lins {
+		for k, at := range l.Atoms {
+			if seenAt[k] {
+				continue
+			}
+			seenAt[k] = true
+			if at.Op == "len" || at.Op == "cap" {
+				facts = append(facts, le(linAtom(at), linConst(int64(1)<<40), "assumed: lengths are below 2^40"))
+			} else if bits, signed, ok := intBits(at.T); ok && !wideAtom(at) {
+				if bits <= 32 {
+					if signed {
+						facts = append(facts, le(linAtom(at), linConst(int64(1)<<31), "type range"), le(linConst(-(int64(1)<<31)), linAtom(at), "type range"))
+					} else {
+						facts = append(facts, le(linAtom(at), linConst(int64(1)<<32), "type range"), le(linConst(0), linAtom(at), "type range"))
+					}
+				} else {
+					facts = append(facts, le(linAtom(at), linConst(ovfBound), "assumed: int values are below 2^44"), le(linConst(-ovfBound), linAtom(at), "assumed: int values are above -2^44"))
+				}
+			}
+		}
+	}
+	return facts
 }
